@@ -53,7 +53,8 @@ pub fn explore_cfg() -> Cfg {
 
 pub fn explore_case(seed: u64, salt: &str, idx: u64) -> ExploreCase {
     let mut rng = Rng::for_case(seed, salt, idx);
-    let cfg = explore_cfg();
+    // every other round of 20 cases uses the call-heavy shape
+    let cfg = if (idx / 20) % 2 == 1 { explore_cfg().call_heavy() } else { explore_cfg() };
     let kind = idx % 20;
     match kind {
         0..=2 => {
